@@ -1,4 +1,243 @@
-//@ props=C18
+//@ props=C07,C08,C09,C18
+//! ASSUMED model of `core::simd::Simd<u64, N>` (nightly portable SIMD), used by contracts/blake2b_simd.vc.
+//!
+//! Verus has no model of std::simd. The type is declared opaque (external_type_specification) and gets a GHOST
+//! view: lane i of a vector v is `simd_lane(v, i)`, the whole vector is `simd_view(v)` (a Seq<u64> of N lanes).
+//! Every operation of std::simd that src/blake2b/blake2b_simd.rs uses is reached through an R2 shim below
+//! (`external_body`; the body is the ORIGINAL std::simd expression, the contract is its documented lane-wise
+//! meaning). EACH SHIM IS AN ASSUMPTION about std::simd and is listed in the evidence; nothing else is assumed.
+//!
+//!   A1  Simd::from([u64; 4]) / Simd::<u64, 4>::from(..)   lane i = array[i]                (core_simd vector.rs `From<[T; N]>`)
+//!   A2  Simd::<u64, 2>::from([u64; 2])                    lane i = array[i]
+//!   A3  Simd::<u64, 4>::from_slice(s)                     lane i = s[i]; panics unless s.len() >= 4 (-> requires)
+//!   A4  a + b, a += b                                     lane-wise WRAPPING addition      (core_simd ops.rs: "wrapping")
+//!   A5  a ^ b, a ^= b, a | b                              lane-wise bit operations
+//!   A6  a >> s, a << s                                    lane-wise shifts, stated only for shift counts < 64
+//!   A7  simd_swizzle!(v, IDX)                             lane i = v[IDX[i]]               (swizzle.rs `Swizzle::swizzle`)
+//!   A8  simd_swizzle!(x, y, IDX)                          lane i = concat(x, y)[IDX[i]]    (swizzle.rs `Swizzle::concat_swizzle`)
+//!   A9  v[i]  (Index<usize>)                              = lane i; panics unless i < 4 (-> requires)
+//!   A10 Simd::splat(x)                                    every lane = x
 use vstd::prelude::*;
+use core::simd::Simd;
+#[allow(unused_imports)]
+use core::simd::simd_swizzle;
+#[allow(unused_imports)]
+use crate::spec_blake2b::b2_add64;
+
 verus! {
+
+/// the std type, opaque to Verus
+#[verifier::external_type_specification]
+#[verifier::external_body]
+#[verifier::accept_recursive_types(T)]
+pub struct ExSimd<T: core::simd::SimdElement, const N: usize>(Simd<T, N>);
+
+/// GHOST: lane i of v (meaningful for 0 <= i < N)
+pub uninterp spec fn simd_lane<const N: usize>(v: Simd<u64, N>, i: int) -> u64;
+
+/// GHOST: the N lanes of v
+pub open spec fn simd_view<const N: usize>(v: Simd<u64, N>) -> Seq<u64> {
+    Seq::new(N as nat, |i: int| simd_lane(v, i))
 }
+
+/// lane-wise wrapping addition
+pub open spec fn simd_add_spec(a: Seq<u64>, b: Seq<u64>) -> Seq<u64> {
+    Seq::new(a.len(), |i: int| b2_add64(a[i], b[i]))
+}
+
+/// lane-wise exclusive or
+pub open spec fn simd_xor_spec(a: Seq<u64>, b: Seq<u64>) -> Seq<u64> {
+    Seq::new(a.len(), |i: int| a[i] ^ b[i])
+}
+
+/// lane-wise or
+pub open spec fn simd_or_spec(a: Seq<u64>, b: Seq<u64>) -> Seq<u64> {
+    Seq::new(a.len(), |i: int| a[i] | b[i])
+}
+
+/// lane-wise logical shift right (lane i of `a` by lane i of `s`)
+pub open spec fn simd_shr_spec(a: Seq<u64>, s: Seq<u64>) -> Seq<u64> {
+    Seq::new(a.len(), |i: int| a[i] >> s[i])
+}
+
+/// lane-wise shift left
+pub open spec fn simd_shl_spec(a: Seq<u64>, s: Seq<u64>) -> Seq<u64> {
+    Seq::new(a.len(), |i: int| a[i] << s[i])
+}
+
+/// `simd_swizzle!(v, [i0, i1, i2, i3])`: lane k of the result = v[i_k]
+pub open spec fn simd_swizzle1_spec(v: Seq<u64>, i0: int, i1: int, i2: int, i3: int) -> Seq<u64> {
+    seq![v[i0], v[i1], v[i2], v[i3]]
+}
+
+/// `simd_swizzle!(x, y, [i0, i1, i2, i3])`: lane k of the result = (x ++ y)[i_k]
+pub open spec fn simd_swizzle2_spec(x: Seq<u64>, y: Seq<u64>, i0: int, i1: int, i2: int, i3: int) -> Seq<u64> {
+    seq![(x + y)[i0], (x + y)[i1], (x + y)[i2], (x + y)[i3]]
+}
+
+// ---- A1, A2, A3, A10: construction ---------------------------------------------------------------------------
+/// A1: R2 shim for `Simd::from([a, b, c, d])` / `Simd::<u64, 4>::from([..])`
+#[verifier::external_body]
+pub fn shim_simd4_from(a: [u64; 4]) -> (r: Simd<u64, 4>)
+    ensures
+        simd_view(r) == a@,
+{
+    Simd::from(a)
+}
+
+/// A2: R2 shim for `Simd::<u64, 2>::from([a, b])`
+#[verifier::external_body]
+pub fn shim_simd2_from(a: [u64; 2]) -> (r: Simd<u64, 2>)
+    ensures
+        simd_view(r) == a@,
+{
+    Simd::<u64, 2>::from(a)
+}
+
+/// A3: R2 shim for `Simd::<u64, 4>::from_slice(s)` / `Simd::from_slice(s)` (documented to panic if s.len() < 4)
+#[verifier::external_body]
+pub fn shim_simd4_from_slice(s: &[u64]) -> (r: Simd<u64, 4>)
+    requires
+        s@.len() >= 4,
+    ensures
+        simd_view(r) == s@.subrange(0, 4),
+{
+    Simd::<u64, 4>::from_slice(s)
+}
+
+/// A10: R2 shim for `Simd::splat(x)`
+#[verifier::external_body]
+pub fn shim_simd4_splat(x: u64) -> (r: Simd<u64, 4>)
+    ensures
+        simd_view(r) == Seq::new(4, |i: int| x),
+{
+    Simd::splat(x)
+}
+
+// ---- A4, A5, A6: lane-wise operators -------------------------------------------------------------------------
+/// A4: R2 shim for `a + b` (wrapping in every lane)
+#[verifier::external_body]
+pub fn shim_simd4_add(a: Simd<u64, 4>, b: Simd<u64, 4>) -> (r: Simd<u64, 4>)
+    ensures
+        simd_view(r) == simd_add_spec(simd_view(a), simd_view(b)),
+{
+    a + b
+}
+
+/// A4: R2 shim for `*a += b`
+#[verifier::external_body]
+pub fn shim_simd4_add_assign(a: &mut Simd<u64, 4>, b: Simd<u64, 4>)
+    ensures
+        simd_view(*final(a)) == simd_add_spec(simd_view(*old(a)), simd_view(b)),
+{
+    *a += b
+}
+
+/// A5: R2 shim for `a ^ b`
+#[verifier::external_body]
+pub fn shim_simd4_xor(a: Simd<u64, 4>, b: Simd<u64, 4>) -> (r: Simd<u64, 4>)
+    ensures
+        simd_view(r) == simd_xor_spec(simd_view(a), simd_view(b)),
+{
+    a ^ b
+}
+
+/// A5: R2 shim for `*a ^= b`
+#[verifier::external_body]
+pub fn shim_simd4_xor_assign(a: &mut Simd<u64, 4>, b: Simd<u64, 4>)
+    ensures
+        simd_view(*final(a)) == simd_xor_spec(simd_view(*old(a)), simd_view(b)),
+{
+    *a ^= b
+}
+
+/// A5: R2 shim for `a | b`
+#[verifier::external_body]
+pub fn shim_simd4_or(a: Simd<u64, 4>, b: Simd<u64, 4>) -> (r: Simd<u64, 4>)
+    ensures
+        simd_view(r) == simd_or_spec(simd_view(a), simd_view(b)),
+{
+    a | b
+}
+
+/// A6: R2 shim for `a >> s` (only used / specified with every shift count < 64)
+#[verifier::external_body]
+pub fn shim_simd4_shr(a: Simd<u64, 4>, s: Simd<u64, 4>) -> (r: Simd<u64, 4>)
+    requires
+        forall|i: int| 0 <= i < 4 ==> simd_view(s)[i] < 64,
+    ensures
+        simd_view(r) == simd_shr_spec(simd_view(a), simd_view(s)),
+{
+    a >> s
+}
+
+/// A6: R2 shim for `a << s` (only used / specified with every shift count < 64)
+#[verifier::external_body]
+pub fn shim_simd4_shl(a: Simd<u64, 4>, s: Simd<u64, 4>) -> (r: Simd<u64, 4>)
+    requires
+        forall|i: int| 0 <= i < 4 ==> simd_view(s)[i] < 64,
+    ensures
+        simd_view(r) == simd_shl_spec(simd_view(a), simd_view(s)),
+{
+    a << s
+}
+
+// ---- A9: lane read -------------------------------------------------------------------------------------------
+/// A9: R2 shim for `v[i]` (Index<usize> for Simd: panics if i >= 4)
+#[verifier::external_body]
+pub fn shim_simd4_lane(v: &Simd<u64, 4>, i: usize) -> (r: u64)
+    requires
+        i < 4,
+    ensures
+        r == simd_view(*v)[i as int],
+{
+    v[i]
+}
+
+} // verus!
+
+// ---- A7, A8: simd_swizzle! with a literal index array ------------------------------------------------------------
+// `simd_swizzle!` needs a CONSTANT index array (it builds a local `impl Swizzle`), so there is one shim per index
+// pattern that occurs in blake2b_simd.rs; all of them are instances of the same two assumptions A7 / A8, generated by
+// the two macros below (shim name = indices appended, so the R2 rewrite `simd_swizzle!(x, y, [a, b, c, d])` ->
+// `shim_swz2_abcd(x, y)` carries a mutated index into the name: an index pattern without shim does not compile).
+macro_rules! simd_swizzle1_shim {
+    ($name:ident, $n:literal, [$i0:literal, $i1:literal, $i2:literal, $i3:literal]) => {
+        verus! {
+        /// A7: R2 shim for `simd_swizzle!(v, [..])`
+        #[verifier::external_body]
+        pub fn $name(v: Simd<u64, $n>) -> (r: Simd<u64, 4>)
+            ensures
+                simd_view(r) == simd_swizzle1_spec(simd_view(v), $i0, $i1, $i2, $i3),
+        {
+            simd_swizzle!(v, [$i0, $i1, $i2, $i3])
+        }
+        }
+    };
+}
+
+macro_rules! simd_swizzle2_shim {
+    ($name:ident, [$i0:literal, $i1:literal, $i2:literal, $i3:literal]) => {
+        verus! {
+        /// A8: R2 shim for `simd_swizzle!(x, y, [..])`
+        #[verifier::external_body]
+        pub fn $name(x: Simd<u64, 4>, y: Simd<u64, 4>) -> (r: Simd<u64, 4>)
+            ensures
+                simd_view(r) == simd_swizzle2_spec(simd_view(x), simd_view(y), $i0, $i1, $i2, $i3),
+        {
+            simd_swizzle!(x, y, [$i0, $i1, $i2, $i3])
+        }
+        }
+    };
+}
+
+simd_swizzle1_shim!(shim_swz1x2_0101, 2, [0, 1, 0, 1]);
+simd_swizzle1_shim!(shim_swz1_3012, 4, [3, 0, 1, 2]);
+simd_swizzle1_shim!(shim_swz1_2301, 4, [2, 3, 0, 1]);
+simd_swizzle1_shim!(shim_swz1_1230, 4, [1, 2, 3, 0]);
+simd_swizzle1_shim!(shim_swz1_1032, 4, [1, 0, 3, 2]);
+simd_swizzle2_shim!(shim_swz2_0426, [0, 4, 2, 6]);
+simd_swizzle2_shim!(shim_swz2_1537, [1, 5, 3, 7]);
+simd_swizzle2_shim!(shim_swz2_0167, [0, 1, 6, 7]);
+simd_swizzle2_shim!(shim_swz2_5072, [5, 0, 7, 2]);
+simd_swizzle2_shim!(shim_swz2_4163, [4, 1, 6, 3]);
